@@ -66,7 +66,7 @@ pub fn category(f: &NetworkFilter) -> &'static str {
         "generichide"
     } else if f.is_exception() {
         "exception"
-    } else if f.is_important() {
+    } else if f.is_important() && (!f.is_redirect() || f.also_block_redirect()) {
         "important"
     } else if adblock::verif_hooks::filter_tag(f).is_some() && !f.is_redirect() {
         "tagged"
